@@ -23,7 +23,7 @@ ASSUMPTIONS = [
     "when the exception reaches the caller, 'stop' has nothing left to observe",
 ]
 ENUM_EXHAUSTIVE = {
-    "thorough": "63 policies x 2 routes x 10 override settings x 5 error kinds x (4 offending-line patterns x 3 component positions + 1 header-row-at-line-0 case + 1 stop()-on-the-offending-line case)",
+    "thorough": "63 policies x 2 routes x 10 override settings x 6 error kinds x (4 offending-line patterns x 3 component positions + 1 header-row-at-line-0 case + 1 stop()-on-the-offending-line case)",
 }
 
 FLAGS = ["raise", "collect", "stop", "fail", "print", "quiet"]
@@ -35,6 +35,7 @@ KINDS = {
     "pyexc": ('@z = mod(7, #v)', "3", "0"),
     "nested": ('not(equals(add(#v, 1), 0))', "5", "x"),
     "when": ('yes() -> @z = add(#v, 1)', "5", "x"),
+    "emptyval": ('not(#id == "") -> @z = add(#v, 1)', "5", "x"),
 }
 BADS = [[0], [2], [4], [1, 3]]
 
